@@ -12,9 +12,11 @@ import (
 	"strings"
 )
 
-// ShutdownIR: the four shutdown() functions, the four UDP read loops (the loop body and every
-// statement of run() that follows the loop) and main() of package vflow as ordered abstract steps,
-// plus every send on and every close of a UDP work queue anywhere in package vflow (C15).
+// ShutdownIR: the four shutdown() functions, the four UDP read loops (the loop body, every
+// statement of run() that follows the loop, and every statement of run() before the loop that
+// mentions the template cache or its "loaded" flag) and main() of package vflow as ordered abstract
+// steps, plus every send on and every close of a UDP work queue, every assignment to a template
+// cache variable and every use of a "loaded" flag anywhere in package vflow (C15).
 // Fail closed: an unrecognised statement becomes `.unrecognised "<go>"`.
 func init() { generators = append(generators, genShutdownIR) }
 
@@ -30,7 +32,7 @@ var (
 	reSetStop = regexp.MustCompile(`^\w+\.stop = true$`)
 	reLog     = regexp.MustCompile(`^logger\.Print(ln|f)\(`)
 	reSleep   = regexp.MustCompile(`^time\.Sleep\(1 \* time\.Second\)$`)
-	reDump    = regexp.MustCompile(`^if err := mCache\w*\.Dump\(opts\.\w+\); err != nil \{ logger\.Println\(.*\) \}$`)
+	reDump    = regexp.MustCompile(`^if err := (mCache\w*)\.Dump\((opts\.\w+)\); err != nil \{ logger\.Println\(.*\) \}$`)
 	reConnCl  = regexp.MustCompile(`^\w+\.conn\.Close\(\)$`)
 	reCloseQ  = regexp.MustCompile(`^close\((\w+UDPCh)\)$`)
 	reGetBuf  = regexp.MustCompile(`^b := \w+Buffer\.Get\(\)\.\(\[\]byte\)$`)
@@ -39,6 +41,16 @@ var (
 	reErrCont = regexp.MustCompile(`^if err != nil \{ continue \}$`)
 	reCount   = regexp.MustCompile(`^atomic\.AddUint64\(&\w+\.stats\.UDPCount, 1\)$`)
 	reEnq     = regexp.MustCompile(`^(\w+UDPCh) <- \w+\{raddr, b\[:n\]\}$`)
+)
+
+var (
+	// the guarded dump (F27 repair): flag, cache variable, file
+	reDumpG = regexp.MustCompile(`^if atomic\.LoadInt32\(&(mCache\w*Loaded)\) == 1 \{ if err := (mCache\w*)\.Dump\((opts\.\w+)\); err != nil \{ logger\.Println\(.*\) \} \}$`)
+	// run(), before the loop: the cache is loaded, the flag is set, (IPFIX) the cache is handed to the RPC goroutine
+	reLoad     = regexp.MustCompile(`^(mCache\w*) = \w+\.GetCache\((opts\.\w+)\)$`)
+	reMark     = regexp.MustCompile(`^atomic\.StoreInt32\(&(mCache\w*Loaded), 1\)$`)
+	reRPC      = regexp.MustCompile(`^go ipfix\.RPC\((mCache\w*), &ipfix\.RPCConfig\{.*\}\)$`)
+	reCacheVar = regexp.MustCompile(`^mCache\w*$`)
 )
 
 func classify(t string, table []struct {
@@ -61,7 +73,8 @@ func genShutdownIR(repo string) (genFile, error) {
 	shTable := []struct {
 		re   *regexp.Regexp
 		name string
-	}{{reGuard, "guardEnabled"}, {reSetStop, "setStop"}, {reLog, "log"}, {reSleep, "sleep1s"}, {reDump, "dump"}, {reConnCl, "closeConn"}, {reCloseQ, "closeQueue"}}
+	}{{reGuard, "guardEnabled"}, {reSetStop, "setStop"}, {reLog, "log"}, {reSleep, "sleep1s"}, {reConnCl, "closeConn"}, {reCloseQ, "closeQueue"}}
+	// (the dump statement, plain or guarded, is handled where shutdown() is walked: a second one is unrecognised)
 	rdTable := []struct {
 		re   *regexp.Regexp
 		name string
@@ -72,18 +85,32 @@ func genShutdownIR(repo string) (genFile, error) {
 			return genFile{}, err
 		}
 		var steps []string
+		// what the dump statement of shutdown() names: cache variable, file, flag ("" = unguarded / no dump)
+		dumpCache, dumpFile, dumpFlag := "", "", ""
 		fd := funcDecl(f, s.recv, "shutdown")
 		if fd == nil {
 			steps = []string{`.unrecognised "shutdown missing"`}
 		} else {
 			for _, st := range fd.Body.List {
-				steps = append(steps, classify(src(fset, st), shTable))
+				t := src(fset, st)
+				if m := reDumpG.FindStringSubmatch(t); m != nil && dumpCache == "" {
+					dumpFlag, dumpCache, dumpFile = m[1], m[2], m[3]
+					steps = append(steps, ".dumpIfLoaded")
+					continue
+				}
+				if m := reDump.FindStringSubmatch(t); m != nil && dumpCache == "" {
+					dumpCache, dumpFile = m[1], m[2]
+					steps = append(steps, ".dump")
+					continue
+				}
+				steps = append(steps, classify(t, shTable))
 			}
 		}
 		fmt.Fprintf(&b, "/-- %s.shutdown in %s -/\ndef %sShutdown : List SStep := [%s]\n\n", s.recv, s.file, s.lean, strings.Join(steps, ", "))
 		// the read loop: the `for !x.stop { … }` statement of run(), and every statement of run() after it
 		var rsteps []string
 		after := []string{}
+		before := []string{}
 		cond := ""
 		nloops := 0
 		queue := "" // the channel the loop sends on
@@ -93,6 +120,9 @@ func genShutdownIR(repo string) (genFile, error) {
 					nloops++
 					cond = src(fset, fs.Cond)
 					rsteps, after = nil, []string{}
+					if nloops > 1 {
+						before = append(before, ".unrecognised \"a second stop loop\"")
+					}
 					for _, bs := range fs.Body.List {
 						t := src(fset, bs)
 						if m := reEnq.FindStringSubmatch(t); m != nil {
@@ -103,7 +133,32 @@ func genShutdownIR(repo string) (genFile, error) {
 					continue
 				}
 				if nloops == 0 {
-					continue // set-up before the loop (listener, workers, producer): not part of the stop protocol
+					// set-up before the loop (listener, workers, producer) is not part of the stop protocol, except
+					// the statements that mention a template cache variable or its "loaded" flag: the cache must be
+					// the one shutdown() dumps, loaded from the file it is dumped to, the flag the one the dump tests
+					if !mentions(st, reCacheVar) {
+						continue
+					}
+					t := src(fset, st)
+					switch {
+					case reLoad.MatchString(t):
+						if m := reLoad.FindStringSubmatch(t); m[1] == dumpCache && m[2] == dumpFile {
+							before = append(before, ".loadCache")
+						} else {
+							before = append(before, ".unrecognised "+leanStr(t+" (shutdown dumps "+dumpCache+" to "+dumpFile+")"))
+						}
+					case reMark.MatchString(t):
+						if m := reMark.FindStringSubmatch(t); m[1] == dumpFlag {
+							before = append(before, ".markLoaded")
+						} else {
+							before = append(before, ".unrecognised "+leanStr(t+" (the dump of shutdown tests \""+dumpFlag+"\")"))
+						}
+					case reRPC.MatchString(t) && reRPC.FindStringSubmatch(t)[1] == dumpCache:
+						before = append(before, ".spawnRPC")
+					default:
+						before = append(before, ".unrecognised "+leanStr(t))
+					}
+					continue
 				}
 				t := src(fset, st)
 				switch m := reCloseQ.FindStringSubmatch(t); {
@@ -126,6 +181,7 @@ func genShutdownIR(repo string) (genFile, error) {
 		}
 		fmt.Fprintf(&b, "/-- the UDP read loop of %s.run -/\ndef %sReadLoop : List RStep := [%s]\n\n", s.recv, s.lean, strings.Join(rsteps, ", "))
 		fmt.Fprintf(&b, "/-- the statements of %s.run after the read loop -/\ndef %sAfterLoop : List RStep := [%s]\n\n", s.recv, s.lean, strings.Join(after, ", "))
+		fmt.Fprintf(&b, "/-- the statements of %s.run before the read loop that mention a template cache variable or its loaded flag -/\ndef %sBeforeLoop : List RStep := [%s]\n\n", s.recv, s.lean, strings.Join(before, ", "))
 	}
 	// every send on / close of a UDP work queue in package vflow (non-test files), by enclosing function
 	sends, closes, err := queueUsers(repo)
@@ -134,6 +190,13 @@ func genShutdownIR(repo string) (genFile, error) {
 	}
 	fmt.Fprintf(&b, "/-- every send statement on a UDP work queue in package vflow: (function, channel) -/\ndef queueSenders : List (String × String) := [%s]\n\n", strings.Join(sends, ", "))
 	fmt.Fprintf(&b, "/-- every `close` of a UDP work queue in package vflow: (function, channel) -/\ndef queueClosers : List (String × String) := [%s]\n\n", strings.Join(closes, ", "))
+	// every assignment to a template cache variable, every use of a "loaded" flag in package vflow
+	writers, flagUses, err := cacheUsers(repo)
+	if err != nil {
+		return genFile{}, err
+	}
+	fmt.Fprintf(&b, "/-- every assignment to a template cache variable (mCache…) in package vflow: (function, statement) -/\ndef cacheWriters : List (String × String) := [%s]\n\n", strings.Join(writers, ", "))
+	fmt.Fprintf(&b, "/-- every use of a loaded flag (mCache…Loaded) in package vflow: (function, the call it is passed to by address), or a description of any other use -/\ndef loadedFlagUses : List (String × String) := [%s]\n\n", strings.Join(flagUses, ", "))
 	// main(): what happens around the signal
 	fset, f, err := parseFile(repo, "vflow/vflow.go")
 	if err != nil {
@@ -248,4 +311,125 @@ func queueUsers(repo string) (sends, closes []string, err error) {
 	sort.Strings(sends)
 	sort.Strings(closes)
 	return sends, closes, nil
+}
+
+// mentions reports whether an identifier matching re occurs anywhere in n
+func mentions(n ast.Node, re *regexp.Regexp) bool {
+	found := false
+	ast.Inspect(n, func(x ast.Node) bool {
+		if id, ok := x.(*ast.Ident); ok && re.MatchString(id.Name) {
+			found = true
+		}
+		return !found
+	})
+	return found
+}
+
+var reLoadedFlag = regexp.MustCompile(`^mCache\w*Loaded$`)
+
+// cacheUsers lists, for every non-test file of package vflow, (1) each assignment whose left side is a template
+// cache variable (an identifier mCache… that is not a flag) as ("Recv.func", "<statement>"), and (2) each occurrence
+// of a "loaded" flag (mCache…Loaded): passed by address to a call -> ("Recv.func", "<call>"); declared with an
+// initial value -> ("package", "initialised: …"); anything else (a plain read or write, its address kept) ->
+// ("Recv.func", "plain use: <enclosing node>"). Both sorted.
+func cacheUsers(repo string) (writers, flagUses []string, err error) {
+	files, err := filepath.Glob(filepath.Join(repo, "vflow", "*.go"))
+	if err != nil {
+		return nil, nil, err
+	}
+	sort.Strings(files)
+	pair := func(a, c string) string { return "(" + leanStr(a) + ", " + leanStr(c) + ")" }
+	for _, path := range files {
+		if strings.HasSuffix(path, "_test.go") {
+			continue
+		}
+		fset := token.NewFileSet()
+		f, e := parser.ParseFile(fset, path, nil, 0)
+		if e != nil {
+			return nil, nil, e
+		}
+		for _, d := range f.Decls {
+			if gd, ok := d.(*ast.GenDecl); ok {
+				for _, sp := range gd.Specs {
+					vs, ok := sp.(*ast.ValueSpec)
+					if !ok {
+						continue
+					}
+					for _, nm := range vs.Names {
+						if reCacheVar.MatchString(nm.Name) && len(vs.Values) > 0 {
+							if reLoadedFlag.MatchString(nm.Name) {
+								flagUses = append(flagUses, pair("package", "initialised: "+src(fset, vs)))
+							} else {
+								writers = append(writers, pair("package", "initialised: "+src(fset, vs)))
+							}
+						}
+					}
+				}
+				continue
+			}
+			fd, ok := d.(*ast.FuncDecl)
+			if !ok || fd.Body == nil {
+				continue
+			}
+			name := fd.Name.Name
+			if fd.Recv != nil && len(fd.Recv.List) == 1 {
+				t := fd.Recv.List[0].Type
+				if st, ok := t.(*ast.StarExpr); ok {
+					t = st.X
+				}
+				name = src(fset, t) + "." + name
+			}
+			var stack []ast.Node
+			ast.Inspect(fd.Body, func(n ast.Node) bool {
+				if n == nil {
+					stack = stack[:len(stack)-1]
+					return true
+				}
+				stack = append(stack, n)
+				id, ok := n.(*ast.Ident)
+				if !ok || !reCacheVar.MatchString(id.Name) {
+					return true
+				}
+				var parent, grand ast.Node
+				if len(stack) >= 2 {
+					parent = stack[len(stack)-2]
+				}
+				if len(stack) >= 3 {
+					grand = stack[len(stack)-3]
+				}
+				if reLoadedFlag.MatchString(id.Name) {
+					if u, ok := parent.(*ast.UnaryExpr); ok && u.Op == token.AND {
+						if c, ok := grand.(*ast.CallExpr); ok {
+							for _, a := range c.Args {
+								if a == ast.Expr(u) {
+									flagUses = append(flagUses, pair(name, src(fset, c)))
+									return true
+								}
+							}
+						}
+					}
+					flagUses = append(flagUses, pair(name, "plain use: "+src(fset, parent)))
+					return true
+				}
+				switch x := parent.(type) {
+				case *ast.AssignStmt:
+					for _, l := range x.Lhs {
+						if l == ast.Expr(id) {
+							writers = append(writers, pair(name, src(fset, x)))
+						}
+					}
+				case *ast.UnaryExpr:
+					if x.Op == token.AND {
+						writers = append(writers, pair(name, "address taken: "+src(fset, grand)))
+					}
+				case *ast.IncDecStmt:
+					writers = append(writers, pair(name, src(fset, x)))
+				}
+				return true
+			})
+		}
+	}
+	sort.Strings(writers)
+	sort.Strings(flagUses)
+	return writers, flagUses, nil
 }
